@@ -503,6 +503,10 @@ pub fn generate_commit_unit(rng: &mut Rng, p: &GenParams, kind: SectionKind, sec
         g.push("".into(), LineKind::Meta, None, section, 0);
     }
     g.section(p, kind, section);
+    // git separates commits by an empty line
+    if g.rng.chance(2, 3) {
+        g.push("".into(), LineKind::Meta, None, section, 0);
+    }
     g.lines
 }
 
